@@ -1671,7 +1671,7 @@ class PostMethod(Method):
     async def handle(self, request, environ, app):
         # see RFC5995
         new_contents = await _readBody(request)
-        unused_href, path, r = app._get_resource_from_environ(request, environ)
+        base_href, path, r = app._get_resource_from_environ(request, environ)
         if r is None:
             return _send_not_found(request)
         if COLLECTION_RESOURCE_TYPE not in r.resource_types:
@@ -1690,9 +1690,7 @@ class PostMethod(Method):
             return Response(status=507, reason="Insufficient Storage")
         except ResourceLocked:
             return Response(status=423, reason="Resource Locked")
-        href = environ["SCRIPT_NAME"] + urllib.parse.urljoin(
-            ensure_trailing_slash(path), urllib.parse.quote(name)
-        )
+        href = urllib.parse.quote(ensure_trailing_slash(base_href) + name)
         return Response(headers={"Location": href})
 
 
